@@ -22,6 +22,8 @@ def pname(n):
 def ncode(s):
     if s in SPECIAL_CODES:
         return SPECIAL_CODES[s]
+    if isinstance(s, str) and s.startswith('*args[') and s[6:-1].isdigit():      # a passed-through surplus positional (model: star_key)
+        return 1000 + int(s[6:-1])
     if isinstance(s, str) and s[:1] == 'p' and s[1:].isdigit():
         return int(s[1:])
     return -1
